@@ -54,6 +54,10 @@ func unusable(name string) bool {
 	if name == blackIdentifier || name == "" || name == "f" || name == "err" {
 		return true
 	}
+	if strings.HasPrefix(name, "param_") || strings.HasPrefix(name, "innerParam_") {
+		// the names that are given to the renamed parameters, of this function and of the function it returns
+		return true
+	}
 	return types.Universe.Lookup(name) != nil
 }
 
